@@ -11,9 +11,14 @@ Tie (model `Qats.Export` vs /repo, exact Rat execution on dyadic inputs):
            functions replaced by the tag functions of C11 on both sides
   codec    key file text / `read_ts_names`, `.dat` header / `read_dat_names`, direct-access words / `read_ts_data`,
            h5 attributes + rebuilt time array / `read_sima_h5_*` against files written by the real writers
-Search (oracles on the unpatched implementation): export -> `TsDB.fromfile` -> arrays compared with `getda(**kwargs)` at the
-format's precision for the four formats x options x in-memory / file-backed databases; "differing processed time arrays
-were written"; "target modified although export raised"; `is_common_time` on lattice series.
+Search (oracles on the unpatched implementation): export -> `TsDB.fromfile` -> arrays compared, at the format's precision, with
+in-memory retrieval with the same options of every selected series ON ITS OWN from a reference database in which nothing is ever
+stored (so a request for several series, in whatever order, cannot hide behind an equally wrong reference); the request as a whole
+(`getda(names=..., **kwargs)`) must return exactly those arrays; without options a file-backed source returns what its file was
+written with. Four target formats x options x in-memory / file-backed (.pkl .ts .dat .h5) sources x histories of the exporting
+database (nothing read yet / selection retrieved and stored / one selected series stored) x target named by absolute path / bare
+file name in the working directory / relative path; "differing processed time arrays were written"; "target modified although
+export raised"; "existing file overwritten although exist_ok=False"; `is_common_time` on lattice series.
 Known findings reported through matchers (ids below): F19 (.dat name like time*), F19b (.pkl name 'Time'), F30 (fewer than two
 processed samples), F31 ('.ts' elsewhere in the target path), F32 (resample given as a list + .ts).  The model also encodes
 that `_check_time_arrays` raises TypeError for non-overlapping series (robustness defect, the export is still refused).
@@ -49,9 +54,11 @@ RULE = ("correspondence: seeded dyadic databases of 1-4 series in the families i
         "(step, array, none) x force_common_time x basename x target exists/exist_ok x missing directory x extension; friendly names "
         "on generated key sets (files in 1-3 directories, in-memory names, unit brackets); codecs on names over the formats' alphabets. "
         "round trips: decimal and dyadic time grids (2-1200 samples incl. the 500-row flush boundary of the ascii writer), data over "
-        "six decades, in-memory / pickle- / direct-access-backed sources, selections (all, one, list, wildcard), options (window, "
-        "resample step/array, low/high/band-pass, taper, smoothing), pre-existing targets; non-trivial = more than one series or any "
-        "option; distinct by full case")
+        "six decades, in-memory / pickle- / direct-access- / ascii- / h5-backed sources (several series per file), selections (all, "
+        "one, list in file order / reversed / shuffled, wildcard), exporting database fresh / selection stored / one series stored, "
+        "target as absolute path / bare file name in the working directory / relative path, options (window, resample step/array, "
+        "low/high/band-pass, taper, smoothing), pre-existing targets with overwriting allowed or not; direct-access records "
+        "requested by index in any order (codec); non-trivial = more than one series or any option; distinct by full case")
 
 EXTS = [".ts", ".dat", ".h5", ".pkl"]
 
@@ -782,6 +789,12 @@ def corr_codec(chk, drv, rng, N, root):
         meta.append(("tsenc", names, " ".join(words)))
         lines.append("ex.tsdec " + " ".join(words))
         meta.append(("tsdec", names, read_ts_data(p)))
+        # ... and records requested by index, in any order (row i of the reply is the i-th requested record)
+        req = [0] + rng.sample(range(1, k + 1), rng.randint(1, k))
+        if rng.random() < 0.3:
+            rng.shuffle(req)
+        lines.append("ex.tsdec " + " ".join(words))
+        meta.append(("tsdec-ind", names, (req, read_ts_data(p, ind=list(req)))))
         # (3) .dat header
         dnames = [nm for nm in names if "\t" not in nm or True]
         p2 = os.path.join(root, "cd%05d.dat" % ci)
@@ -832,6 +845,13 @@ def corr_codec(chk, drv, rng, N, root):
             exp = "ok " + " | ".join(",".join(rat(v) for v in row) for row in im)
             if out != exp:
                 chk.disagree("codec-tsdec", inp, out, exp)
+        elif kind == "tsdec-ind":
+            req, rows = im
+            mrows = out[3:].split(" | ") if out.startswith("ok ") else []
+            exp = "ok " + " | ".join(",".join(rat(v) for v in row) for row in rows)
+            mod = "ok " + " | ".join(mrows[i] for i in req) if mrows and max(req) < len(mrows) else out
+            if mod != exp:
+                chk.disagree("codec-tsdec-ind", dict(inp, ind=req), mod, exp)
         elif kind == "h5":
             got, arrs = im
             toks = out.split()[1:] if out.startswith("ok") else []
@@ -1014,6 +1034,27 @@ def corner_cases():
         ok2.update(series=[dict(name="x", file="r1/c.pkl", t=t4, x=[1.0, 2.0, 3.0, 4.0], dtg=None),
                            dict(name="x", file="r2/c.pkl", t=t4, x=[5.0, 6.0, 7.0, 8.0], dtg=None)], preexisting=False)
         out.append(ok2)
+    # the target named as a bare file name in the working directory / as a relative path: existing file, overwriting (dis)allowed
+    for ext in EXTS:
+        for style in ("bare", "rel"):
+            out.append(mk(two, ext=ext, preexisting=True, exist_ok=False, target_style=style))
+            out.append(mk(two, ext=ext, preexisting=True, exist_ok=True, target_style=style))
+        out.append(mk(two, ext=ext, target_style="bare"))
+        out.append(mk(two, ext=ext, target_style="rel", subdir=True))
+    # file-backed sources of every format holding three series; requests that name the series in another order than the file,
+    # from a database that has read nothing / the selection / one of the series before
+    t5 = [0.0, 0.5, 1.0, 1.5, 2.0]
+    abc = [("a", [1.0, 2.0, 3.0, 4.0, 5.0]), ("b", [10.0, 10.25, 10.5, 10.75, 11.0]), ("c", [-5.0, -2.5, 0.0, 2.5, 5.0])]
+    for src in ("ts", "dat", "h5", "pkl"):
+        for ext, select, hist in zip(EXTS, [["c", "a"], ["c", "b", "a"], ["b", "a"], ["c", "a", "b"]], ["fresh", "read-first", "partial", "fresh"]):
+            fb = dict(base)
+            fb.update(source=src, ext=ext, select=select, history=hist, partial_index=1,
+                      series=[dict(name=n, file="f." + src, t=t5, x=x, dtg=None) for n, x in abc])
+            out.append(fb)
+        fb2 = dict(base)
+        fb2.update(source=src, ext=".pkl", select=["c", "a"], history="fresh", kw={"twin": [0.5, 1.5]},
+                   series=[dict(name=n, file="f." + src, t=t5, x=x, dtg=None) for n, x in abc])
+        out.append(fb2)
     # known findings
     out.append(mk([("time_lag", t4, [1.0, 2.0, 3.0, 4.0]), ("b", t4, [5.0, 6.0, 7.0, 8.0])], ext=".dat"))             # F19
     out.append(mk([("Timer", t4, [1.0, 2.0, 3.0, 4.0])], ext=".dat"))                                                # F19
@@ -1058,11 +1099,29 @@ def snapshot(d):
     return res
 
 
+def retrieve_each(db, keys, kw):
+    """in-memory retrieval of every key on its own, nothing stored in the database: key -> (t, x)"""
+    out = OrderedDict()
+    for k in keys:
+        t, x = db.geta(ind=db.register_keys.index(k), store=False, **kw)
+        out[k] = (np.array(t, dtype=float), np.array(x, dtype=float))
+    return out
+
+
 def eval_e2e(case, root):
     """returns (failures, info): failures = [(oracle, expected, observed, extra)]"""
+    cwd0 = os.getcwd()
+    try:
+        return _eval_e2e(case, root)
+    finally:
+        os.chdir(cwd0)           # (targets given relative to the working directory)
+
+
+def _eval_e2e(case, root):
     from qats import TsDB
     fails, info = [], {}
     ext = case["ext"]
+    # reference database: nothing is ever stored in it (every retrieval below reads the source again)
     db = build_db(case, root)
     select = case["select"]
     kw = kw_of(case["kw"])
@@ -1073,13 +1132,6 @@ def eval_e2e(case, root):
         return fails, info
     stored = [np.array(sel[k].t) for k in keys]
     ident = all(a.shape == stored[0].shape and np.array_equal(a, stored[0]) for a in stored)
-    # in-memory retrieval with the same options
-    try:
-        exp = db.getda(names=select, fullkey=True, **kw)
-        exp = OrderedDict((k, (np.asarray(v[0], dtype=float), np.asarray(v[1], dtype=float))) for k, v in exp.items())
-        exp_err = None
-    except Exception as e:
-        exp, exp_err = None, e
     # names the file should contain
     ser_by_key = {}
     for s in case["series"]:
@@ -1089,6 +1141,42 @@ def eval_e2e(case, root):
                     ser_by_key[k] = s
     exp_names = [ser_by_key[k]["name"] for k in keys]
     info["names"] = exp_names
+    # in-memory retrieval with the same options: (1) every selected series on its own, (2) the selection in one request
+    try:
+        exp1 = retrieve_each(db, keys, kw)
+    except Exception:
+        exp1 = None
+    try:
+        exp = db.getda(names=select, fullkey=True, store=False, **kw)
+        exp = OrderedDict((k, (np.asarray(v[0], dtype=float), np.asarray(v[1], dtype=float))) for k, v in exp.items())
+        exp_err = None
+    except Exception as e:
+        exp, exp_err = None, e
+    if exp is not None and exp1 is not None:
+        # the same code on the same stored arrays: equal to the last bit
+        for k, n in zip(keys, exp_names):
+            one, req = exp1[k], exp.get(k)
+            if req is None or req[0].shape != one[0].shape or req[1].shape != one[1].shape or \
+                    not (np.array_equal(req[0], one[0], equal_nan=True) and np.array_equal(req[1], one[1], equal_nan=True)):
+                fails.append(("in-memory retrieval of a selection returns for every series what retrieval of that series alone returns",
+                              dict(series=n, t=one[0].tolist()[:6], x=one[1].tolist()[:6]),
+                              None if req is None else dict(series=n, t=req[0].tolist()[:6], x=req[1].tolist()[:6]), dict(series=n)))
+                break
+        exp = exp1               # what the reloaded file is compared with: each series retrieved on its own
+    if exp1 is not None and not kw and case["source"] != "mem":
+        # a file-backed source was itself written by the format's writer: without options, retrieval returns the arrays that were
+        # written, within the source format's precision (round trip of the source file)
+        for k, n in zip(keys, exp_names):
+            te, xe = np.array(ser_by_key[k]["t"], dtype=float), np.array(ser_by_key[k]["x"], dtype=float)
+            tg, xg = exp1[k]
+            rt, at, rx, ax = tolerances("." + case["source"], te, xe)
+            okt = len(tg) == len(te) and ((case["source"] == "h5" and not is_uniform(te)) or bool(np.all(np.abs(tg - te) <= at + rt * np.abs(te))))
+            okx = len(xg) == len(xe) and bool(np.all(np.abs(xg - xe) <= ax + rx * np.abs(xe)))
+            if not (okt and okx):
+                fails.append(("a file-backed database retrieves for every name the arrays its source file was written with (source "
+                              "format's precision)", dict(series=n, t=te.tolist()[:6], x=xe.tolist()[:6]),
+                              dict(series=n, t=tg.tolist()[:6], x=xg.tolist()[:6]), dict(series=n)))
+                break
     # target
     tdir = os.path.join(root, "tgt")
     os.makedirs(tdir)
@@ -1101,6 +1189,19 @@ def eval_e2e(case, root):
         if ext == ".ts":
             with open(os.path.splitext(target)[0] + ".key", "w") as f:
                 f.write("sentinel\nEND\n")
+    # how the target is named in the call: absolute path, bare file name in the working directory, relative path with a directory
+    style = case.get("target_style", "abs")
+    if style == "bare" and case["subdir"]:
+        style = "rel"
+    arg = target
+    if style == "bare":
+        os.makedirs(os.path.dirname(target), exist_ok=True)
+        os.chdir(os.path.dirname(target))
+        arg = os.path.basename(target)
+    elif style == "rel":
+        os.chdir(root)
+        arg = os.path.relpath(target, root)
+    info["target_arg"] = arg
     # what should be written: the in-memory retrievals if their time arrays agree; with force_common_time (and no resampling
     # requested) otherwise the retrievals resampled to the common time array
     exp0, forced = exp, False
@@ -1114,25 +1215,36 @@ def eval_e2e(case, root):
             ct = db.create_common_time(names=select, twin=kw.get("twin"))
             kw2 = dict(kw)
             kw2["resample"] = ct
-            expf = db.getda(names=select, fullkey=True, **kw2)
-            exp = OrderedDict((k, (np.asarray(v[0], dtype=float), np.asarray(v[1], dtype=float))) for k, v in expf.items())
+            exp = retrieve_each(db, keys, kw2)
             forced, same = True, True
         except Exception:
             pass
     nproc = None if exp is None else min(len(v[0]) for v in exp.values())
     xtra = dict(processed_samples=nproc)
+    # the exporting database and what happened to it before: in memory -> the reference database itself; file-backed -> a second
+    # database on the same files, with the selection retrieved and stored / nothing read / one selected series read and stored
+    dbx, hist = db, case.get("history", "read-first")
+    if case["source"] != "mem":
+        dbx = build_db(case, root, write=False)
+        try:
+            if hist == "read-first":
+                dbx.getda(names=select, fullkey=True, **kw)
+            elif hist == "partial":
+                dbx.get(ind=dbx.register_keys.index(keys[case.get("partial_index", 0) % len(keys)]))
+        except Exception:
+            pass
     before = snapshot(tdir)
     try:
-        quiet(db.export, target, names=select, exist_ok=case["exist_ok"], basename=case["basename"], force_common_time=case["force"], **kw)
+        quiet(dbx.export, arg, names=select, exist_ok=case["exist_ok"], basename=case["basename"], force_common_time=case["force"], **kw)
         raised = None
     except Exception as e:
         raised = e
     after = snapshot(tdir)
+    changed = sorted(set(k for k in set(before) | set(after) if before.get(k) != after.get(k)))
     info["written_names"] = exp_names
     if raised is not None:
         info["outcome"] = "raise:" + type(raised).__name__
         if after != before:
-            changed = sorted(set(k for k in set(before) | set(after) if before.get(k) != after.get(k)))
             fails.append(("an export that raises leaves the target (and every other file) untouched", "no file created or modified",
                           dict(raised="%s: %s" % (type(raised).__name__, str(raised)[:120]), changed=changed), xtra))
         # exports that must not be refused: identical stored time arrays, valid options, distinct names, overwriting allowed
@@ -1144,7 +1256,8 @@ def eval_e2e(case, root):
         return fails, info
     info["outcome"] = "written"
     if case["preexisting"] and not case["exist_ok"]:
-        fails.append(("an existing file is not overwritten when exist_ok=False", "FileExistsError", "file written", xtra))
+        fails.append(("an existing file is not overwritten when exist_ok=False", "FileExistsError, target untouched",
+                      dict(outcome="export returned", target_argument=arg, files_changed=changed), xtra))
         return fails, info
     if exp is None or not same:
         fails.append(("series whose processed time arrays differ are never written side by side", "export raises",
@@ -1152,11 +1265,11 @@ def eval_e2e(case, root):
                            retrieval_error=None if exp_err is None else repr(exp_err)[:160]), xtra))
         return fails, info
     info["forced"] = forced
-    # reload
+    # reload (the file is named as it was in the export call)
     try:
-        db2 = TsDB.fromfile(target)
+        db2 = TsDB.fromfile(arg)
         keys2 = list(db2.register_keys)
-        got_names = [k[len(os.path.abspath(target)) + 1:] for k in keys2]
+        got_names = [k[len(os.path.abspath(arg)) + 1:] for k in keys2]
         da = db2.getda(ind=list(range(len(keys2))), fullkey=True, store=False)
         got = [(np.asarray(da[k][0], dtype=float), np.asarray(da[k][1], dtype=float)) for k in keys2]
     except Exception as e:
@@ -1208,6 +1321,7 @@ def eval_e2e(case, root):
             fails.append(("reloaded data equal the processed data within the format's precision", float(xe[j]), float(xg[j]), dict(series=n, index=j, **xtra)))
     # forced resampling: independent reading of "resampled to the common window"
     if forced:
+        sel = OrderedDict((k, db.get(ind=db.register_keys.index(k), store=False)) for k in keys)     # each series read on its own
         t_all = [np.array(sel[k].t) for k in keys]
         cs, ce = max(a[0] for a in t_all), min(a[-1] for a in t_all)
         T = got[0][0]
@@ -1324,7 +1438,7 @@ def run(chk):
         shutil.rmtree(root, ignore_errors=True)
     for c in corner_cases():
         run_e2e(chk, c)
-    for _ in range(1600 if chk.quick else 22000):
+    for _ in range(1500 if chk.quick else 18000):
         run_e2e(chk, gen_e2e(rng))
 
 
